@@ -23,13 +23,29 @@ pub enum Kind {
     UnknownId,
 }
 
+#[derive(Clone, Debug, Serialize, Deserialize, PartialEq)]
+pub enum Start {
+    /// handshake (+ bitfield) right after connecting
+    HandshakeFirst,
+    /// the remote never sends a handshake: only keep-alives may arrive
+    NoHandshake,
+    /// the remote is silent for this many tenths of a second, then handshakes
+    LateHandshake(u32),
+}
+
 #[derive(Clone, Debug, Serialize, Deserialize)]
 pub struct Case {
+    #[serde(default = "default_start")]
+    pub start: Start,
     /// tenths of a second between arrivals
     pub arrivals: Vec<(u32, Kind)>,
     pub outgoing: bool,
     pub assign_first: bool,
     pub seed: u64,
+}
+
+fn default_start() -> Start {
+    Start::HandshakeFirst
 }
 
 fn strategy() -> BoxedStrategy<Case> {
@@ -53,8 +69,13 @@ fn strategy() -> BoxedStrategy<Case> {
     // either mixed schedules, or "lively" ones that keep talking for a long time
     let mixed = vec((dt, kind.clone()), 0..30);
     let lively = vec((prop::sample::select(vec![300u32, 600, 900, 1100, 1170, 1180]), prop_oneof![Just(Kind::Have), Just(Kind::Interested), Just(Kind::Choke), Just(Kind::Cancel), Just(Kind::Request), Just(Kind::NotInterested)]), 6..30);
-    (prop_oneof![3 => mixed, 2 => lively], any::<bool>(), any::<bool>(), any::<u64>())
-        .prop_map(|(arrivals, outgoing, assign_first, seed)| Case { arrivals, outgoing, assign_first, seed })
+    let start = prop_oneof![
+        6 => Just(Start::HandshakeFirst),
+        1 => Just(Start::NoHandshake),
+        1 => prop::sample::select(vec![300u32, 1190, 1210, 2390, 2410, 3000, 3590]).prop_map(Start::LateHandshake),
+    ];
+    (start, prop_oneof![3 => mixed, 2 => lively], any::<bool>(), any::<bool>(), any::<u64>())
+        .prop_map(|(start, arrivals, outgoing, assign_first, seed)| Case { start, arrivals, outgoing, assign_first, seed })
         .boxed()
 }
 
@@ -76,13 +97,25 @@ pub fn check(c: &Case) -> Outcome {
             let conn = w.connect(if c.outgoing { Some(remote_id) } else { None });
             let addr = w.conns[conn].addr.clone();
             // start-up traffic: handshake and full bitfield (so that "not interested" never ends the task normally)
-            w.send_frame(conn, &RFrame::handshake(ih, remote_id));
-            w.send_frame(conn, &RFrame::Bitfield(wire::bits_to_bytes(&[true; 4])));
-            if c.assign_first {
-                w.send_frame(conn, &RFrame::Unchoke);
-            }
             w.settle().await;
-            let start_activity = w.now().as_secs_f64();
+            if let Start::LateHandshake(d) = c.start {
+                let mut at = t0 + d as f64 / 10.0;
+                let phase = (at - t0) % TICK;
+                if phase < 0.3 || phase > TICK - 0.3 {
+                    at += 0.7;
+                }
+                w.advance_to(Duration::from_secs_f64(at)).await;
+            }
+            let mut start_activity = t0;
+            if c.start != Start::NoHandshake && w.handler_alive(conn) {
+                w.send_frame(conn, &RFrame::handshake(ih, remote_id));
+                w.send_frame(conn, &RFrame::Bitfield(wire::bits_to_bytes(&[true; 4])));
+                if c.assign_first {
+                    w.send_frame(conn, &RFrame::Unchoke);
+                }
+                w.settle().await;
+                start_activity = w.now().as_secs_f64();
+            }
             // activity[0] = last start-up message
             let mut activity_a: Vec<f64> = vec![start_activity]; // known non-keep-alive messages
             let mut activity_b: Vec<f64> = vec![start_activity]; // ... plus unknown-id messages
@@ -103,6 +136,8 @@ pub fn check(c: &Case) -> Outcome {
                 if !w.handler_alive(conn) || w.fatal().is_some() {
                     break;
                 }
+                // before a handshake only keep-alives may arrive (anything else legitimately ends the connection)
+                let kind = if c.start == Start::NoHandshake { &Kind::KeepAlive } else { kind };
                 let f = match kind {
                     Kind::KeepAlive => RFrame::KeepAlive,
                     Kind::Choke => RFrame::Choke,
@@ -163,6 +198,8 @@ pub fn check(c: &Case) -> Outcome {
     o.class_if(long_silence, "silence>240s-inside-schedule");
     o.class_if(c.assign_first, "piece-assigned");
     o.class_if(c.outgoing, "outgoing");
+    o.class_if(c.start == Start::NoHandshake, "never-handshakes");
+    o.class_if(matches!(c.start, Start::LateHandshake(_)), "late-handshake");
     o.class_if(act_a.len() != act_b.len(), "unknown-id-messages");
     o.nontrivial = ((end - t0) > 360.0 && near_tick) || long_silence || lively;
 
@@ -234,7 +271,7 @@ pub fn check(c: &Case) -> Outcome {
 pub fn def() -> PropDef {
     PropDef {
         id: "C20",
-        rule: "one remote peer on the swarm runtime under tokio's paused clock: valid handshake + full bitfield (+ optional unchoke so that a piece gets reserved), then up to 30 arrivals (delta-t from {0.5,30,60,119,119.9,120.1,121,200,239,241,300,359,361,500} s and lively spacings 30..119.5 s; kind from keep-alive, choke, unchoke, interested, not-interested, have, request, cancel, unknown-id message), arrivals nudged 0.7 s away from the client's own ticks; then 500 s of silence. Oracle from a small reference reading of the statement: closed by last-other-message + 360 s (+1.5 s), peer forgotten and reservation released; never closed for inactivity while every gap between other messages is < 120 s; exactly one keep-alive read at each t0+120k s while alive, none off schedule. Silences between 120 s and 360 s and the role of unknown-id messages are deliberately unasserted (both readings accepted). Non-trivial = a schedule longer than 360 s with an arrival within 1.5 s of a tick, or a silence > 240 s inside the schedule, or a lively schedule > 360 s; distinct by hash of the case.",
+        rule: "one remote peer on the swarm runtime under tokio's paused clock: the remote handshakes at once, never (only keep-alives arrive), or after 30..359 s of silence; valid handshake + full bitfield (+ optional unchoke so that a piece gets reserved), then up to 30 arrivals (delta-t from {0.5,30,60,119,119.9,120.1,121,200,239,241,300,359,361,500} s and lively spacings 30..119.5 s; kind from keep-alive, choke, unchoke, interested, not-interested, have, request, cancel, unknown-id message), arrivals nudged 0.7 s away from the client's own ticks; then 500 s of silence. Oracle from a small reference reading of the statement: closed by last-other-message + 360 s (+1.5 s), peer forgotten and reservation released; never closed for inactivity while every gap between other messages is < 120 s; exactly one keep-alive read at each t0+120k s while alive, none off schedule. Silences between 120 s and 360 s and the role of unknown-id messages are deliberately unasserted (both readings accepted). Non-trivial = a schedule longer than 360 s with an arrival within 1.5 s of a tick, or a silence > 240 s inside the schedule, or a lively schedule > 360 s; distinct by hash of the case.",
         assumptions: &[
             "virtual time: tokio's paused clock; the harness drains sockets every virtual second, so keep-alive timestamps are accurate to 1 s",
             "arrivals closer than 0.3 s to a client tick are moved: their order against the tick is decided by select!'s internal coin",
@@ -244,7 +281,7 @@ pub fn def() -> PropDef {
             cases: |t| t.pick(15_000, 200_000),
             run: |ctx| run_proptest(ctx, "schedules", strategy(), check),
             replay: |v| replay_case::<Case>(v, check),
-            min_class: &[("lively>360s-all-gaps<120s", 0.1), ("arrival-within-1.5s-of-a-tick", 0.1822), ("silence>240s-inside-schedule", 0.0703), ("piece-assigned", 0.2538)],
+            min_class: &[("lively>360s-all-gaps<120s", 0.1), ("arrival-within-1.5s-of-a-tick", 0.1822), ("silence>240s-inside-schedule", 0.0703), ("piece-assigned", 0.15), ("never-handshakes", 0.05), ("late-handshake", 0.05)],
         }],
     }
 }
